@@ -98,6 +98,7 @@ func NewRun(prop, tier string, seed uint64, outDir string) *Run {
 	_ = os.MkdirAll(outDir, 0o755)
 	r := &Run{Prop: prop, Tier: tier, Seed: seed, OutDir: outDir, Rng: NewRng(seed).Fork(prop),
 		nontrivial: map[string]struct{}{}, Dist: map[string]int{}, maxSamples: 6, UnitLayer: true}
+	activeRun = r
 	var err error
 	r.opsF, err = os.Create(filepath.Join(outDir, "ops.txt"))
 	if err != nil {
@@ -120,6 +121,25 @@ func (r *Run) Budget(quick, thorough int) int {
 		return thorough
 	}
 	return quick
+}
+
+// activeRun is the run in progress (one per process): the script engines note each step through it.
+var activeRun *Run
+
+// noteStep records the script executed so far and the step about to run (see Begin).
+func noteStep(engine, soFar, next string) {
+	if activeRun != nil {
+		activeRun.Begin(engine+"/process-crash", "no interleaving makes the library panic or deadlock", map[string]interface{}{"script_so_far": soFar, "next_step": next})
+	}
+}
+
+// Begin notes the case about to be driven, so that a crash of the whole process in a goroutine of the code under
+// test (which no recover can catch) can still be reported together with the input that provoked it.
+func (r *Run) Begin(sig, clause string, c interface{}) {
+	b, err := json.Marshal(map[string]interface{}{"signature": sig, "oracle_clause": clause, "case": c})
+	if err == nil {
+		_ = os.WriteFile(filepath.Join(r.OutDir, "current.json"), b, 0o644)
+	}
 }
 
 // Op records one model operation line together with the implementation's
